@@ -149,7 +149,7 @@ func Menu(s *Schema, typeName string, level int) []*Sel {
 		if fd.Name == "pick" || fd.Name == "rev" || fd.Name == "tri" || fd.Name == "paint" {
 			return // argument-heavy fields are exercised by dedicated documents
 		}
-		if fd.Name == "ghost" {
+		if fd.Name == "ghost" || fd.Name == "meet" {
 			return // reflection has nothing to bind it to: only hand-written documents select it
 		}
 		if fd.Name == "vkids" {
